@@ -11,6 +11,15 @@ Oracle (the statement executed on the IMPLEMENTATION, every public class and nes
  (h) a fitted model is unaffected by later in-place mutation of the training arrays
  (i) deepcopy / pickle twins taken at random points of random histories continue identically
  (j) two instances trained in random interleavings equal each instance trained alone
+ (k) a copy.copy checkpoint (every level of a nesting) is not written to when the original is fitted again, in
+     particular on the same number of rows: learned state and predictions of the checkpoint stay what they were
+ (l) a random subset of the estimator's OWN constructor parameters (CVIART.validity, TopoART.beta_lower/tau/phi,
+     DualVigilanceART.rho_lower_bound, BARTMAP.eta, FusionART.gamma_values, any argument of an elementary class)
+     changed on an existing object by set_params / attribute assignment, before the first fit or after a history,
+     on a stream where the change is observable: reported by get_params, behaves like one constructed with them
+ (m) hyper-parameter values that are numpy floating scalars (np.float64, as an np.linspace grid hands out) through
+     set_params / module__name / attribute assignment / the constructor: reported as given, set_params(**get_params())
+     a no-op, clone / deepcopy / pickle work and every copy behaves like the twin that received Python floats
 Tie: `params run` op sequences (get/set/attr/setattr, valid and malformed values) on the
 eight elementary classes against the Lean model; the Lean class table against the table
 re-extracted from the source (inspect.signature, default-instance get_params, AST of
@@ -32,9 +41,9 @@ from .. import gen, specs
 from ..common import q2s, mat_q, vec_q, run_driver
 from ..impl import make, quiet, exc_enum, full_snapshot, eq_snap, params_tree
 
-RULE = ("cases = (subject = public class or nesting, sub-check a..j, hyper-parameter spec(s), data stream, history of "
-        "fit/partial_fit/predict calls, copy point / interleaving / mutation); a case is non-trivial when at least one "
-        "training call committed >= 2 categories (b, c, e, h, i, j); protocol-only cases (a, d, g) and tie lines with >= 2 commands count as non-trivial; "
+RULE = ("cases = (subject = public class or nesting, sub-check a..m, hyper-parameter spec(s), data stream, history of "
+        "fit/partial_fit/predict calls, copy point / interleaving / mutation / route by which values reach the estimator); a case is non-trivial when at least one "
+        "training call committed >= 2 categories (b, c, e, h, i, j, k, l, m); protocol-only cases (a, d, g) and tie lines with >= 2 commands count as non-trivial; "
         "distinct by hash of all of it")
 
 BETA_BASES = ["FuzzyART", "HypersphereART", "EllipsoidART", "ART2A"]
@@ -1214,6 +1223,332 @@ def chk_j_interleave(c: Case):
     c.ctx.cov.case(("j", S.name, spec, specB, ops_brief(opsA), ops_brief(opsB), order), nontrivial(soloA) or nontrivial(soloB))
 
 
+# ================================================================ (k) state shared through a shallow copy
+
+
+def _is_artlib_object(v) -> bool:
+    return hasattr(v, "__dict__") and not isinstance(v, type) and type(v).__module__.split(".")[0] == "artlib"
+
+
+def shallow_twin(est, memo=None):
+    """`copy.copy(est)`, applied at every level of a nesting: NEW estimator objects whose attributes are the SAME
+    arrays / lists / dicts as the original's.  For a class without sub-estimators this is exactly copy.copy(est)
+    (a plain copy.copy of a wrapper shares the sub-estimator objects themselves, so it has no model of its own)."""
+    memo = {} if memo is None else memo
+    if id(est) in memo:
+        return memo[id(est)]
+    tw = copy.copy(est)
+    memo[id(est)] = tw
+    for k, v in list(vars(tw).items()):
+        if _is_artlib_object(v):
+            tw.__dict__[k] = shallow_twin(v, memo)
+        elif isinstance(v, list) and v and all(_is_artlib_object(t) for t in v):
+            tw.__dict__[k] = [shallow_twin(t, memo) for t in v]
+    return tw
+
+
+def snap_paths(a, b, p=""):
+    """paths at which two snapshots differ"""
+    if isinstance(a, dict) and isinstance(b, dict):
+        out = []
+        for k in sorted(set(a) | set(b), key=str):
+            if k not in a or k not in b:
+                out.append(f"{p}/{k}")
+            elif not eq_snap(a[k], b[k]):
+                out += snap_paths(a[k], b[k], f"{p}/{k}")
+        return out
+    if isinstance(a, (list, tuple)) and isinstance(b, (list, tuple)) and len(a) == len(b) and a and isinstance(a[0], dict):
+        return [q for i, (x, y) in enumerate(zip(a, b)) if not eq_snap(x, y) for q in snap_paths(x, y, f"{p}[{i}]")]
+    return [p or "/"]
+
+
+def chk_k_shallow_checkpoint(c: Case):
+    """(k) a model owns its state, also against a re-fit of ANOTHER object that shares containers with it: a checkpoint
+    taken with copy.copy (every level of a nesting) receives no training call; the original is then fitted again — often
+    on the SAME number of rows, as in cross-validation folds.  `fit` discards the earlier model and builds a new one, so
+    it must not write into the arrays / lists that held the earlier model: the checkpoint's learned state (labels,
+    weights, counters, maps) and its predictions stay what they were.  (The hyper-parameter dict is shared by design
+    of a shallow copy and is left out; partial_fit, which extends the shared containers by design, is not used here.)"""
+    S, r = c.S, c.rng("k")
+    if not S.has_fit:
+        return
+    spec = S.spec(r)
+    est = c.build(spec, "k")
+    if est is None:
+        return
+    pre = gen_ops(S, r, spec, r.randint(1, 2))
+    outs = run_ops(S, est, pre)
+    if any(o[0] == "exc" for o in outs):
+        c.ctx.cov.hit("k:earlier-history-raised")
+        return
+    # rows the model currently holds labels for: those of the last fit and of the partial_fits after it
+    held = 0
+    for op, D in pre:
+        held = D.n() if op == "fit" else held + D.n() if op == "pfit" else held
+    same_n = r.random() < 0.7
+    n = held if same_n else r.randint(2, S.nmax)
+    D2 = S.data(r, spec, n)
+    P = S.data(r, spec, r.randint(2, S.nmax)) if S.has_pred else None
+    o = outcome(lambda: shallow_twin(est))
+    rep = {"spec": spec, "earlier_ops": ops_replay(pre), "refit": ops_replay([("fit", D2)]), "same_number_of_rows": D2.n() == held,
+           "checkpoint": "copy.copy at every level of the nesting"}
+    if o[0] == "exc":
+        c.violation(f"{S.cls}.copy:raises", f"copy.copy after {ops_brief(pre)} raised {o[1]}", rep)
+        return
+    ck = o[1]
+    before = _no_params(snapshot(ck))
+    if not eq_snap(before, _no_params(snapshot(est))):
+        c.violation(f"{S.cls}.copy:state-differs", "a shallow copy has a different observable state", rep)
+        return
+    pb = apply_op(S, ck, "pred", P.copy()) if P is not None else None
+    o2 = apply_op(S, est, "fit", D2.copy())
+    after = _no_params(snapshot(ck))
+    c.ctx.cov.hit("k:shallow-copy-then-refit:" + ("same-rows" if D2.n() == held else "other-rows") + (":refit-raised" if o2[0] == "exc" else ""))
+    if not eq_snap(before, after):
+        c.ctx.cov.hit("k:checkpoint-moved")
+        c.violation(f"{S.cls}.fit:writes-into-state-shared-with-a-shallow-copy",
+                    f"a copy.copy checkpoint taken after {ops_brief(pre)} received no call, but fitting the original again on "
+                    f"{D2.n()} rows changed the checkpoint's learned state at {snap_paths(before, after)[:4]}", rep)
+    elif pb is not None and not eq_snap(pb, apply_op(S, ck, "pred", P.copy())):
+        c.violation(f"{S.cls}.fit:changes-predictions-of-a-shallow-copy",
+                    "fitting the original again changed the predictions of a copy.copy checkpoint", rep)
+    c.ctx.cov.case(("k", S.name, spec, ops_brief(pre), D2.n()), nontrivial(outs))
+
+
+# ================================================================ (l) the wrapper's own parameters, changed after construction
+
+
+def own_param_names(est, spec) -> list[str]:
+    """constructor arguments of the estimator's own class that get_params exposes and that are plain values (no
+    sub-estimator): CVIART.validity, TopoART.beta_lower/tau/phi, DualVigilanceART.rho_lower_bound, BARTMAP.eta,
+    FusionART.gamma_values, every argument of an elementary class"""
+    raw = strip(spec)
+    with quiet():
+        gp = est.get_params(deep=True)
+    return [k for k in ctor_args(type(est))
+            if k in gp and k in raw and not hasattr(gp[k], "get_params") and not isinstance(raw[k], dict)
+            and not (isinstance(raw[k], list) and raw[k] and isinstance(raw[k][0], dict))]
+
+
+def chk_l_own_params(c: Case):
+    """(l) a random subset of the estimator's OWN parameters is changed on an existing object (set_params or attribute
+    assignment; before the first fit or after an earlier history), everything else stays as constructed: it reports the
+    new values and trains / predicts exactly like an estimator CONSTRUCTED with them.  Sub-check (c) changes every
+    parameter at once, so on the flat wrappers a difference is attributed to the base module's parameters; here the
+    sub-estimators are identical on both sides and only the wrapper's own arguments differ."""
+    S, r = c.S, c.rng("l")
+    spec1 = S.spec(r)
+    B = c.build(spec1, "l")
+    if B is None:
+        return
+    own = own_param_names(B, spec1)
+    if not own:
+        c.ctx.cov.hit("l:class-exposes-no-own-parameter")
+        return
+    ks = []
+    for _ in range(8):
+        spec2 = S.spec_like(r, spec1)
+        ks = [k for k in own if k in spec2 and not peq(_norm(spec2[k]), _norm(spec1[k]))]
+        if ks:
+            break
+    if not ks:
+        c.ctx.cov.hit("l:no-other-value-drawn")
+        return
+    ks = r.sample(ks, r.randint(1, len(ks)))
+    specA = copy.deepcopy(spec1)
+    for k in ks:
+        specA[k] = copy.deepcopy(spec2[k])
+    oA = outcome(lambda: make(strip(specA)))
+    if oA[0] == "exc":
+        c.ctx.cov.hit("l:combination-rejected-by-the-constructor")
+        return
+    A = oA[1]
+    with quiet():
+        lp = leaf_params(A)
+    kw = {k: copy.deepcopy(lp[k]) for k in ks}
+    used = S.has_fit and S.cls != "BARTMAP" and r.random() < 0.4
+    rep = {"spec_constructed": specA, "spec_before_change": spec1, "changed": kw}
+    if used:
+        pre = gen_ops(S, r, spec1, 1)
+        rep["earlier_ops"] = ops_replay(pre)
+        if any(o[0] == "exc" for o in run_ops(S, B, pre)):
+            c.ctx.cov.hit("l:earlier-history-raised")
+            return
+    by_attr = r.random() < 0.5
+    how = "attribute-assignment" if by_attr else "set_params"
+    rep["how"] = how
+
+    def change():
+        if by_attr:
+            for k_, v_ in kw.items():
+                setattr(B, k_, v_)
+        else:
+            B.set_params(**kw)
+    o = outcome(change)
+    if o[0] == "exc":
+        c.violation(f"{S.cls}.{how}:own-parameter-valid-value-raises",
+                    f"{how}({_brief(kw)}) raised {o[1]}; the constructor accepts these values next to the same sub-estimators", rep)
+        return
+    with quiet():
+        now = leaf_params(B)
+    for k in ks:
+        if not peq(_norm(now.get(k)), _norm(kw[k])):
+            c.violation(f"{S.cls}.{how}:own-parameter-not-reported",
+                        f"after {how}({k}={kw[k]!r}) get_params()[{k!r}] = {now.get(k)!r}", rep)
+    # a stream on which the change is observable at all: the estimator constructed with the new values and one
+    # constructed with the old ones part ways (a few draws; otherwise the last stream is used and counted as such)
+    matters = False
+    for _ in range(4):
+        ops = gen_ops(S, r, specA, r.randint(1, 3))
+        if used:
+            ops[0] = ("fit", ops[0][1])
+        outsA = run_ops(S, make(strip(specA)), ops)
+        matters = first_diff(behav(outsA), behav(run_ops(S, make(strip(spec1)), ops))) is not None
+        if matters:
+            break
+    c.ctx.cov.hit("l:new-values-" + ("change-the-behaviour-on-the-stream" if matters else "make-no-difference-on-the-stream"))
+    rep["ops"] = ops_replay(ops)
+    outsB = run_ops(S, B, ops)
+    d = first_diff(behav(outsA), behav(outsB))
+    c.ctx.cov.hit(f"l:{how}:{'used' if used else 'fresh'}:{'differs' if d is not None else 'equal'}")
+    for k in ks:
+        c.ctx.cov.hit(f"l:changed:{S.cls if S.cls not in specs.ELEM else 'elementary'}.{k}")
+    if d is not None:
+        c.violation(f"{S.cls}.{how}:own-parameter-differs-from-constructed",
+                    f"{'a trained' if used else 'an unfitted'} estimator after {how}({_brief(kw)}) behaves differently from one "
+                    f"constructed with these values and the same sub-estimators (first difference at call {d}: {ops[d][0]}; "
+                    f"categories {_nc(outsA, d)} vs {_nc(outsB, d)})", rep)
+    c.ctx.cov.case(("l", S.name, spec1, tuple(ks), specA, how, used, ops_brief(ops)), nontrivial(outsA))
+
+
+# ================================================================ (m) numpy floating scalars as hyper-parameter values
+
+
+def npf(v):
+    """a Python float as the numpy scalar an np.linspace / np.arange grid hands out (np.float64 IS a float for
+    isinstance, so every validate_params accepts it wherever it accepts the Python float)"""
+    return np.float64(v) if type(v) is float else v
+
+
+def np_spec(spec):
+    """the same spec with every scalar float hyper-parameter (nested ones too) as np.float64"""
+    if isinstance(spec, dict) and "cls" in spec:
+        return {k: (np_spec(v) if isinstance(v, (dict, list)) else npf(v)) for k, v in spec.items()}
+    if isinstance(spec, list) and spec and isinstance(spec[0], dict):
+        return [np_spec(v) for v in spec]
+    return spec
+
+
+def _configure(B, kw, route):
+    """hand the values `kw` (get_params names) to an existing estimator"""
+    if route == "set_params":
+        B.set_params(**kw)
+        return
+    with quiet():
+        gp = B.get_params(deep=True)
+    for k_, v_ in kw.items():
+        owner, attr = (gp[k_.rsplit("__", 1)[0]], k_.rsplit("__", 1)[1]) if "__" in k_ else (B, k_)
+        setattr(owner, attr, v_)
+
+
+def chk_m_numpy_scalars(c: Case):
+    """(m) the statement for hyper-parameter values that are numpy floating scalars (what a parameter grid built with
+    np.linspace hands to set_params / module__name / an attribute / the constructor).  Twin P receives the Python
+    floats, twin N the same numbers as np.float64, by the same route.  Wherever the protocol works for P it must work
+    for N with the same result: the value handed in is the value reported, set_params(**get_params()) is a no-op,
+    sklearn.clone / deepcopy / pickle give copies with equal hyper-parameters (the clone unfitted), and all of them
+    train and predict exactly like P.  (Where P itself fails — e.g. clone of the classes whose get_params does not
+    expose the constructor arguments — the failure belongs to sub-checks a, c, g and is not repeated here.)"""
+    from sklearn.base import clone
+    S, r = c.S, c.rng("m")
+    spec1 = S.spec(r)
+    spec2 = S.spec_like(r, spec1)
+    route = r.choice(["set_params", "set_params", "attribute-assignment", "constructor"])
+    rep = {"spec": spec2, "spec_before": spec1 if route != "constructor" else None, "route": route,
+           "values": "every float hyper-parameter as numpy.float64"}
+    if route == "constructor":
+        oP, oN = outcome(lambda: make(strip(spec2))), outcome(lambda: make(np_spec(strip(spec2))))
+        given = None
+    else:
+        T = c.build(spec2, "m")
+        P, N = c.build(spec1, "m"), c.build(spec1, "m")
+        if T is None or P is None or N is None:
+            return
+        with quiet():
+            kw = leaf_params(T)
+        given = {k: npf(v) for k, v in kw.items()}
+        if route == "set_params" and r.random() < 0.5:
+            # one name at a time, as a grid search over single parameters does
+            names = [k for k, v in given.items() if isinstance(v, np.floating)]
+            if names:
+                k0 = r.choice(names)
+                kw, given = {k0: kw[k0]}, {k0: given[k0]}
+        rep["names"] = sorted(given)
+        oP, oN = outcome(lambda: (_configure(P, copy.deepcopy(kw), route), P)[1]), outcome(lambda: (_configure(N, given, route), N)[1])
+    if oP[0] == "exc":
+        c.ctx.cov.hit(f"m:{route}:python-float-twin-raised")
+        return
+    if oN[0] == "exc":
+        c.violation(f"{S.cls}.{route}:numpy-float-rejected",
+                    f"{route} raised {oN[1]} for np.float64 values and accepts the same numbers as Python floats", rep)
+        return
+    P, N = oP[1], oN[1]
+    c.ctx.cov.hit(f"m:{route}")
+    with quiet():
+        lpP, lpN = leaf_params(P), leaf_params(N)
+    if route == "constructor":
+        given = {k: npf(v) for k, v in lpP.items() if "__" not in k}
+    for k, v in given.items():
+        if k in lpN and isinstance(v, np.floating) and not peq(lpN[k], v):
+            c.violation(f"{S.cls}.get_params:numpy-float-not-reported-as-given",
+                        f"{route} handed {k}={v!r} ({type(v).__name__}); get_params()[{k!r}] = {lpN[k]!r} ({type(lpN[k]).__name__})", rep)
+            break
+    if not eq_snap(ptree(P), ptree(N)):
+        c.violation(f"{S.cls}.{route}:numpy-float-changes-hyper-parameters",
+                    f"hyper-parameters by value differ: {snap_paths(ptree(P), ptree(N))[:4]}", rep)
+        return
+    # ---- round trips, each against the Python-float twin
+    twins = [("np.float64 twin", N)]
+    base = ptree(N)
+    o1, o2 = outcome(lambda: P.set_params(**dict(P.get_params()))), outcome(lambda: N.set_params(**dict(N.get_params())))
+    if o1[0] == "ok" and (o2[0] == "exc" or not eq_snap(base, ptree(N))):
+        c.violation(f"{S.cls}.set_params:roundtrip-with-numpy-float",
+                    f"set_params(**get_params()) {'raised ' + str(o2[1]) if o2[0] == 'exc' else 'changed the hyper-parameters'}", rep)
+        return
+    for name, fn in (("clone", clone), ("deepcopy", copy.deepcopy), ("pickle", lambda e: pickle.loads(pickle.dumps(e)))):
+        o1, o2 = outcome(lambda: fn(P)), outcome(lambda: fn(N))
+        if o1[0] == "exc":
+            c.ctx.cov.hit(f"m:{name}:python-float-twin-raised")
+            continue
+        c.ctx.cov.hit(f"m:{name}")
+        if o2[0] == "exc":
+            c.violation(f"{S.cls}.{name}:raises-with-numpy-float-parameter",
+                        f"{name} raised {o2[1]} after {route} of np.float64 values "
+                        f"({_brief({k: v for k, v in given.items() if isinstance(v, np.floating)})}); with the same numbers as "
+                        "Python floats it returns a copy", rep)
+            continue
+        cp = o2[1]
+        if cp is N or type(cp) is not type(N) or not eq_snap(ptree(cp), base):
+            c.violation(f"{S.cls}.{name}:hyper-parameters-differ-with-numpy-float",
+                        f"{name} of the np.float64 twin: {snap_paths(ptree(cp), base)[:4]}", rep)
+            continue
+        if name == "clone" and (ncat(snapshot(cp)) != 0 or getattr(cp, "is_fitted_", False)):
+            c.violation(f"{S.cls}.clone:fitted", "clone of an estimator carries learned state", rep)
+        twins.append((name + " of the np.float64 twin", cp))
+    if not (S.has_fit or S.has_pfit):
+        return
+    ops = gen_ops(S, r, spec2, 2)
+    rep["ops"] = ops_replay(ops)
+    want = behav(run_ops(S, P, ops))
+    for name, tw in twins:
+        d = first_diff(want, behav(run_ops(S, tw, ops)))
+        if d is not None:
+            c.violation(f"{S.cls}.{route}:numpy-float-behaves-differently",
+                        f"the {name} differs from the Python-float twin at call {d} ({ops[d][0]})", rep)
+            break
+    c.ctx.cov.case(("m", S.name, spec1, spec2, route, tuple(sorted(given)), ops_brief(ops)), nontrivial(want))
+
+
 # ================================================================ class table re-extracted from the source
 
 
@@ -1604,7 +1939,11 @@ def _as_cmp(v):
 
 SUBCHECKS = [("a", chk_a_get_params), ("b", chk_b_roundtrip), ("c", chk_c_twins), ("c-used", chk_c_used_twins), ("d", chk_d_reject),
              ("e", chk_e_attrs), ("g", chk_g_clone), ("h", chk_h_ownership), ("i", chk_i_copies), ("j", chk_j_interleave)]
-NEEDS_SKLEARN = {"a", "b", "c", "c-used", "d", "e", "g"}
+# situations added for seeded changes C05k / C15k / C19k (shallow-copy checkpoints, a wrapper's own parameters changed
+# after construction, numpy floating scalars as values); they run on the first EXTRA_ROUNDS indices of every subject
+EXTRA_ROUNDS_QUICK = 6
+EXTRA_SUBCHECKS = [("k", chk_k_shallow_checkpoint), ("l", chk_l_own_params), ("m", chk_m_numpy_scalars)]
+NEEDS_SKLEARN = {"a", "b", "c", "c-used", "d", "e", "g", "l", "m"}
 
 
 def chk_replace_and_nested(ctx):
@@ -1679,10 +2018,11 @@ def run(ctx):
     tie_protocol(ctx, table, ctx.scale(400, 6000))
     tie_own(ctx, ctx.scale(40, 400))
     rounds = ctx.scale(14, 150)
+    extra_rounds = ctx.scale(EXTRA_ROUNDS_QUICK, 40)
     subjects = all_subjects()
     for S in subjects:
         for idx in range(rounds):
-            for tag, fn in SUBCHECKS:
+            for tag, fn in SUBCHECKS + (EXTRA_SUBCHECKS if idx < extra_rounds else []):
                 if tag in NEEDS_SKLEARN and not S.sklearn:
                     continue
                 c = Case(ctx, S, idx, table)
